@@ -272,6 +272,7 @@ def run(ctx):
     if not ctx.quick:
         c01_deep.run(ctx, scns, monitor)
     else:
+        c01_deep.msan_pass(ctx, scns[:1000])
         # a short coverage-guided stage on every change as well
         c01_deep.run_fuzz(ctx, [s for s in scns if s.meta["fam"] != "dse-inflated"], int(os.environ.get("VERIF_FUZZ_RUNS", "12000")))
     rep.need("inputs_executed", rep.counters.get("inputs_executed", 0), ctx.n(100000, 1500000))
